@@ -9,8 +9,11 @@ def mnemo(i):
 
 def opers(i):
     ops = []
+    if hasattr(i, "cond"):
+        # condition name of JPcc/JRcc/CALLcc/RETcc
+        ops.append(i.cond[0])
     for op in i.operands:
-        if not isinstance(op, str) and op._is_mem:
+        if op._is_mem:
             op = op.a
             if op.base._is_eqn:
                 s = str(op)[1:-1]
